@@ -33,6 +33,25 @@ def sites(text):
             out.append((m.start(), j, '(' + text[i:j - 1] + ')'))
         for m in re.finditer(r'\.encode\(\)\)', text):                      # len(Z.encode()) -> len(Z)
             out.append((m.start(), m.end() - 1, ''))
+    elif op == 'dropcall':
+        # drop a whole statement that only calls a cache-flush / offset / fix-up helper
+        for m in re.finditer(r'^([ \t]+)((?:self|parent|root|fst_|self\.root|parenta\.f|ast\.f|[a-z_]+)\.(?:_touch|_touchall|_offset|_set_end_pos|_set_start_pos|_fix_\w+|_maybe_\w+|_unmake_fst_tree|_make_fst_tree|_reparse_docstr_Constants)\([^\n]*\))[ \t]*(#[^\n]*)?$', text, re.M):
+            if m.group(2).count('(') == m.group(2).count(')'):
+                out.append((m.start(2), m.end(2), 'pass'))
+    elif op == 'swapidx':
+        for m in re.finditer(r'\[(-1|0)\](?!\s*=[^=])', text):
+            out.append((m.start(), m.end(), '[0]' if m.group(1) == '-1' else '[-1]'))
+    elif op == 'notnone':
+        for m in re.finditer(r'\bif ([\w\.]+) is not None:', text):
+            out.append((m.start(), m.end(), f'if {m.group(1)}:'))
+        for m in re.finditer(r'\bif ([\w\.]+) is None:', text):
+            out.append((m.start(), m.end(), f'if not {m.group(1)}:'))
+    elif op == 'boolflip':
+        for m in re.finditer(r'(?<=[(, ])(True|False)(?=[,)])', text):
+            out.append((m.start(), m.end(), 'False' if m.group(1) == 'True' else 'True'))
+    elif op == 'plusone':
+        for m in re.finditer(r'(?<=[\w\)\]]) ([+-]) 1\b(?!\d)', text):
+            out.append((m.start(), m.end(), ''))
     elif op == 'offby':
         for m in re.finditer(r'(?<![\w\.])(end_col|col|end_ln|ln|idx|start|stop) ([<>])=? ', text):   # < <-> <=
             s = m.group(0)
@@ -40,9 +59,15 @@ def sites(text):
             out.append((m.start(), m.end(), new))
     return out
 
+import random
+rnd = random.Random(int(os.environ.get('MUT_SEED', '1')))
+per_file = int(os.environ.get('MUT_PER_FILE', '0'))
 for f in sorted(SRC.glob(glob)):
     text = f.read_text()
-    for (a, b, new) in sites(text):
+    ss = sites(text)
+    if per_file and len(ss) > per_file:
+        ss = sorted(rnd.sample(ss, per_file))
+    for (a, b, new) in ss:
         line = text.count('\n', 0, a) + 1
         key = f'{f.name}:{line}:{a}'
         if key in results:
